@@ -315,3 +315,34 @@ def decision_table(event, classify, conds=None):
         a = dict(zip(names, vals))
         rows.append((a, executes(event, None, a, oracle, conds)))
     return names, rows
+
+
+def executes_rel(event, atoms, oracle, relevant, conds=None, sub=None):
+    """like executes(), but only the guards for which relevant(cond) holds are evaluated; the others are taken as passed.
+    An earlier exit counts as taken only when all its relevant conditions hold and its other conditions are guards of the event itself."""
+    own = [(str(c), pol) for c, pol, _n in event["guards"]]
+    for c, pol, _n in event["guards"]:
+        if relevant(c):
+            r = decide(c, sub, atoms, oracle, conds)
+            if r is None:
+                return None
+            if r != pol:
+                return False
+    for gl in event.get("not", []):
+        taken = True
+        for c, pol, _n in gl:
+            if isinstance(c, tuple) and c and c[0] in ("loop", "each"):
+                continue
+            if relevant(c):
+                r = decide(c, sub, atoms, oracle, conds)
+                if r is None:
+                    return None
+                if r != pol:
+                    taken = False
+                    break
+            elif (str(c), pol) not in own:
+                taken = False
+                break
+        if taken and any(relevant(c) for c, _p, _n in gl):
+            return False
+    return True
